@@ -409,6 +409,60 @@ Theorem C12_source_get_placement_resolved n (s e : gline) (ls : list Py.val) :
 Proof. exact (GP.gen_get_placement n s e ls true). Qed.
 Print Assumptions C12_source_get_placement_resolved.
 
+(* ---- _get_second_placement, the sparse case (the else branch of its final `if dense:`), REGENERATED from the
+   source on every run (gen/GenGrid.v: grid_second_sparse_body).  The set occupied_tracks is given by the list of
+   its elements (GS.tracks: the elements `range(x, x + width)` of the model's intervals); second_start is 'auto'
+   (with a span the source searches with `for end_track in count(track + 1)`, outside the translated subset: the
+   regenerated body raises there).  The call of _get_placement is answered by the source's own _get_placement. *)
+Require WV.proofs.C12_gen_grid_second.
+Module GS := WV.proofs.C12_gen_grid_second.
+
+(* for EVERY set of occupied tracks (any list of integers, any order), every second_end without a name (auto /
+   integer / span) and every list of line names the branch returns, without raising, the placement of the model at
+   the line after the last occupied track (GS.next_track: max + 1, 0 for the empty set) *)
+Theorem C12_source_second_sparse_auto n (occ : list Z) (e : gline) (ls : list Py.val) :
+  Py.run (PyLink.linked GenGrid.GenGrid_table (S (S n))) GenGrid.grid_second_sparse_body
+    [("occupied_tracks"%string, Py.VList (map Py.vint occ)); ("second_start"%string, Py.VStr "auto"%string);
+     ("second_end"%string, G.vline e); ("second_tracks"%string, Py.VList ls)]
+    (fun _ r => r = Some (GP.vpl (Some (pl_line_start (GS.next_track occ + 1)%Z e)))) (fun _ => False).
+Proof. exact (GS.gen_second_sparse_auto n occ e ls). Qed.
+Print Assumptions C12_source_second_sparse_auto.
+
+(* it is the model's second_placement (sparse packing) on which the placement theorems above rest, for both flow
+   directions, every first placement and every list of placed areas *)
+Theorem C12_source_second_sparse_model n (colflow : bool) (fp : Z * Z) (se : gline) (ps : list area)
+    (ls : list Py.val) :
+  Py.run (PyLink.linked GenGrid.GenGrid_table (S (S n))) GenGrid.grid_second_sparse_body
+    [("occupied_tracks"%string, Py.VList (map Py.vint (GS.tracks (occupied colflow fp ps))));
+     ("second_start"%string, Py.VStr "auto"%string); ("second_end"%string, G.vline se);
+     ("second_tracks"%string, Py.VList ls)]
+    (fun _ r => r = Some (GP.vpl (second_placement colflow false fp GAuto se ps))) (fun _ => False).
+Proof. exact (GS.gen_second_sparse_model n colflow fp se ps ls). Qed.
+Print Assumptions C12_source_second_sparse_model.
+
+(* the track computed from the elements of the set is the model's occ_next of the intervals *)
+Theorem C12_source_second_next_track (occ : list (Z * Z)) : GS.next_track (GS.tracks occ) = occ_next occ.
+Proof. exact (GS.next_track_occ occ). Qed.
+Print Assumptions C12_source_second_next_track.
+
+(* the returned track is after every occupied track *)
+Theorem C12_source_second_track_after (occ : list Z) : forall t, In t occ -> (t < GS.next_track occ)%Z.
+Proof. exact (GS.next_track_after occ). Qed.
+Print Assumptions C12_source_second_track_after.
+
+(* the returned (start, size): size >= 1; second_end auto: the cell at the track; `span k`: k tracks from the
+   track; an integer line b: the tracks between the track and line b, one track when they coincide *)
+Theorem C12_source_second_sparse_clauses (nt : Z) (e : gline) : gline_valid e = true ->
+  let '(c, s) := pl_line_start (nt + 1)%Z e in
+  (1 <= s)%Z /\
+  match e with
+  | GAuto => c = nt /\ s = 1%Z
+  | GSpan k => c = nt /\ s = k
+  | GLine b => c = Z.min nt (b - 1)%Z /\ s = Z.max 1 (Z.abs (b - 1 - nt))%Z
+  end.
+Proof. exact (GS.second_sparse_auto_clauses nt e). Qed.
+Print Assumptions C12_source_second_sparse_clauses.
+
 (* ---- flex_layout step 6 "resolve the flexible lengths" (css-flexbox 9.7) of weasyprint/layout/flex.py
    REGENERATED from the source on every run (gen/GenFlexResolve.v, interpreter base/Py.v) computes the model
    C12Flex on which the flex theorems above rest.  The body of `for line in flex_lines:` up to 9.7.6 is cut into
